@@ -177,3 +177,27 @@ Proof.
   unfold levelled in H. rewrite forallb_forall in H.
   apply lookup_col_In in El. apply (H _ El).
 Qed.
+
+(* ---------------------------------------------------------------------------------------- *)
+(* A formula that handles exceptions, on a cycle: the result depends on the schedule.
+     A = try: return $B / except Exception: return 7        B = $A        one row
+   Starting with A: A needs B, B needs A, A is locked -> A = CircularRefError, B = CircularRefError.
+   Starting with B: B needs A, A needs B, B is locked -> B = CircularRefError, A catches it -> A = 7. *)
+Definition handler_cols : list (Z * expr) := [(10, ETry (ECol 11) 7); (11, ECol 10)].
+Definition handler_rows : list Z := [1].
+Definition handler_prog : prog := prog_of handler_cols handler_rows.
+Definition handler_init : state := init_state (val_of []) (formula_cells handler_cols handler_rows).
+Definition handler_run (order : list cell) : state := run handler_prog (engine_strategy handler_prog order) 20 handler_init.
+
+Lemma handler_order_dependent :
+  wf_init handler_prog handler_init /\
+  complete_run handler_prog handler_init (handler_run [(10, 1); (11, 1)]) /\
+  complete_run handler_prog handler_init (handler_run [(11, 1); (10, 1)]) /\
+  val (handler_run [(10, 1); (11, 1)]) (10, 1) = VErr CircularRef /\
+  val (handler_run [(11, 1); (10, 1)]) (10, 1) = VInt 7.
+Proof.
+  split; [apply wf_init_doc|].
+  split; [split; [apply run_steps | apply is_final_final; vm_compute; reflexivity]|].
+  split; [split; [apply run_steps | apply is_final_final; vm_compute; reflexivity]|].
+  split; vm_compute; reflexivity.
+Qed.
